@@ -439,3 +439,26 @@ PROPERTIES["C06"] = {
          "encoded": ["nano::linear::function_t::do_vgrad (value and gradient vs the naive definition, all regulariser combinations)"]},
     ],
 }
+
+PROPERTIES["C04"] = {
+    "level": "other",
+    "level_text": "bounded symbolic verification of the interior-point solver's status logic on the CALLER's program: (a) a start that is not strictly feasible is rejected without iterating; (b) for an arbitrary iterate (x,u,v) satisfying the reachable-state invariants, `converged` implies feasibility of the caller's constraints within the advertised tolerances, the reported objective equals the caller's objective (normalisation undone) and - on KKT-constructed programs with a known optimum - the optimality-gap bound 1e-8*M*(1+|x-x*|+|u|_1); (c) equality-only programs solved end-to-end incl. duplicated equality rows",
+    "level_note": SRE_NOTE + "; src/program/solver.cpp is compiled into the harness (#include) to reach its private program_t / solver_t::done; no source hook in /repo is needed",
+    "technique": SRE_TECH,
+    "explanation": "C04: program_t (reduce + normalize), program_t::update/feasible, solver_t::done, solve_without_inequality and the start rejection of solve_with_inequality on symbolic programs.",
+    "assumptions": SRE_ASSUME + ["program data boxed to [-8,8]; multipliers u in (0,100), v in [-100,100]", "mode=done/gap: state invariants G x < h, u > 0 assumed (they hold for every interior-point iterate)"],
+    "bounds": {"variables": "1..2", "inequalities": "1..3", "equalities": "0..2", "Q": "symbolic PSD D'D or diagonal"},
+    "outside": ["the Newton iteration itself (LDLT on symbolic KKT systems for >= 10 iterations): optimality after convergence is covered only through the status decision on arbitrary iterates",
+                "never `converged` on infeasible/unbounded programs beyond the start rejection", "programs with more than 2 variables (nlsat returns unknown on the normalisation norms)"],
+    "units": [
+        {"engine": "sre", "harness": "C04_program", "sources": ["C04_program.cpp"], "exclude": ["program__solver"],
+         "quick": ["mode=done;n=1;m=1", "mode=done;n=1;m=2;qd=1", "mode=done;n=1;m=1;p=1;qd=1", "mode=gap;n=1;m=1;lp=1", "mode=gap;n=1;m=1;qd=1", "mode=eq;n=2;p=1;lp=1", "mode=eq;n=2;p=2;lp=1;dup=1",
+                   "mode=x0;n=2;m=2;lp=1", "mode=x0;n=1;m=2;qd=1"],
+         "thorough": ["mode=done;n=1;m=1", "mode=done;n=1;m=2;qd=1", "mode=done;n=1;m=1;p=1;qd=1", "mode=done;n=2;m=1;lp=1", "mode=done;n=2;m=1;qd=1", "mode=done;n=1;m=2;lp=1",
+                      "mode=gap;n=1;m=1;lp=1", "mode=gap;n=1;m=1;qd=1", "mode=gap;n=1;m=2;lp=1", "mode=eq;n=2;p=1;lp=1", "mode=eq;n=2;p=1;qd=1", "mode=eq;n=2;p=2;lp=1;dup=1", "mode=eq;n=2;p=2;lp=1;dup=2",
+                      "mode=x0;n=2;m=2;lp=1", "mode=x0;n=1;m=2;qd=1", "mode=x0;n=2;m=2;qd=1", "mode=x0;n=2;m=3;lp=1"],
+         "budget": {"quick": {"deadline_s": 45, "max_paths": 5000, "query_s": 8}, "thorough": {"deadline_s": 600, "max_paths": 100000, "query_s": 30}},
+         "encoded": ["nano::program::solver_t::program_t::{ctor, update, feasible, solve}", "(anonymous)::normalize", "nano::program::reduce", "nano::program::solver_t::{done, solve, solve_with_inequality (start rejection), solve_without_inequality}",
+                     "nano::program::solver_state_t::{update, residual}", "Eigen::LDLT / FullPivLU instantiations on symbolic matrices"]},
+    ],
+}
